@@ -487,8 +487,22 @@ func testC18Realtime(t *testing.T, kind sim.Kind) {
 			ci := rapid.IntRange(0, wl.Clients-1).Draw(rt, "c")
 			issuers[ci] = true
 			call := c06CheapCall(kind, i)
-			if kind == sim.Counter {
+			switch {
+			case kind == sim.Counter:
 				call = c07Op(kind, i)
+			case kind == sim.Map && rapid.IntRange(0, 3).Draw(rt, "rm") == 0:
+				// few keys, so that puts and removes of different clients meet on one key
+				call = sim.Call{M: "Remove", Key: fmt.Sprintf("b%d", rapid.IntRange(0, 2).Draw(rt, "rmkey"))}
+			case kind == sim.Map:
+				call = sim.Call{M: "Put", Key: fmt.Sprintf("b%d", rapid.IntRange(0, 2).Draw(rt, "putkey")), Vals: []sim.Val{sim.I(int64(i))}}
+			case kind == sim.Document && rapid.IntRange(0, 3).Draw(rt, "rm") == 0:
+				call = sim.Call{M: "DeleteInObject", Key: fmt.Sprintf("b%d", rapid.IntRange(0, 2).Draw(rt, "rmkey"))}
+			case kind == sim.Document:
+				v := sim.I(int64(i))
+				if rapid.Bool().Draw(rt, "nested") {
+					v = sim.Obj(sim.KV{K: "n", V: sim.Arr(sim.I(int64(i)))})
+				}
+				call = sim.Call{M: "PutToObject", Key: fmt.Sprintf("b%d", rapid.IntRange(0, 2).Draw(rt, "putkey")), Vals: []sim.Val{v}}
 			}
 			wl.Ops = append(wl.Ops, c18Op{C: ci, Call: call, Sleep: rapid.SampledFrom([]int{0, 0, 100, 1000, 3000}).Draw(rt, "sleep")})
 		}
@@ -511,6 +525,10 @@ func testC18Realtime(t *testing.T, kind sim.Kind) {
 
 func TestC18RealtimeCounter(t *testing.T) { testC18Realtime(t, sim.Counter) }
 func TestC18RealtimeList(t *testing.T)    { testC18Realtime(t, sim.List) }
+func TestC18RealtimeMap(t *testing.T)     { testC18Realtime(t, sim.Map) }
+func TestC18RealtimeDocument(t *testing.T) {
+	testC18Realtime(t, sim.Document)
+}
 
 // TestC18OwnNotifications: a realtime client does not sync because of notifications it caused.
 func TestC18OwnNotifications(t *testing.T) {
